@@ -702,7 +702,7 @@ func (b *Book) ingestMelt(o *HTTPObs, resp map[string]any) {
 			internal = true
 			// the melt that pays a mint quote must be worth that quote (an invoice with the same
 			// payment hash but a lower amount is not that quote's invoice)
-			if !q.Mpp && q.Amount < m.MQ[mq].Amount {
+			if q.Amount < m.MQ[mq].Amount {
 				b.Violate("C03.internal_underpaid", "melt", "mint quote %s over %d sat was settled internally by a melt of %d sat (invoice with the same payment hash, other amount)", short(mq), m.MQ[mq].Amount, q.Amount)
 			}
 			alreadyCounted := false
